@@ -239,7 +239,10 @@ class G:
         fields = r.choice(["['s']", "['s', 't']", "['t', 'nosuch']", "['nosuch']", "('s',)"])
         strs = "[" + ", ".join(self.const_str() for _ in range(r.randint(1, 2))) + "]"
         kw = r.choice(["", "", ", nocase=False", ", nocase=True"])
-        return f"{r.choice(['field_contains', 'field_equals'])}(r, {fields}, {strs}{kw})"
+        helper = r.choice(['field_contains', 'field_equals'])
+        if helper == "field_contains" and r.chance(30):
+            kw += ", word_boundary=True"       # whole-word matches only (a separate code path of the helper)
+        return f"{helper}(r, {fields}, {strs}{kw})"
 
     def typed(self, d, env):
         r = self.r
@@ -280,6 +283,13 @@ def gen_cases(rng, tier):
         if g.tm_in:
             c["family"] = "tmatch_in"
         cases.append(c)
+    # constructs OUTSIDE the documented language (subscripts, conditional expressions, comprehensions, dict/set displays,
+    # lambdas) under and/or: the interpreted engine may refuse them, but it may not hand out a value that is not Python's
+    ro = rng.fork("outlang")
+    for src in ["r.l[0] == 'a' and r.n == 1", "r.n == 1 or r.l[0] == 'a'", "(1 if r.n else 0) and True",
+                "[x for x in r.k] and True", "{'a': 1} and True", "{r.n} and r.t == r.t", "(lambda: 1) and True",
+                "r.t == r.t and r.k[0] >= 0", "not (r.l[0] == 'a' and True)", "(r.s if r.b else r.t) == r.t or r.n == r.n"]:
+        cases.append({"src": src, "records": [gen_record(ro, "matching") for _ in range(3)], "depth": 1, "outlang": True})
     return cases
 
 
@@ -461,6 +471,8 @@ def oracle(case, obs):
             continue  # some sub-expression is not defined on this record: no expectation
         for eng in ("interpreted", "compiled"):
             e = o[eng]
+            if "error" in e and case.get("outlang") and eng == "interpreted":
+                continue      # a refusal of a construct outside the language is fine; a wrong value is not
             if "error" in e:
                 return (f"`{case['src']}` on record {i}: Python evaluation gives {ref['value']} but the {eng} engine "
                         f"raises {e['error']}: {e.get('msg', '')}")
